@@ -358,7 +358,10 @@ cJSON *set_or_call(const struct peer *p, const cJSON *request, enum type what)
 	char *rendered_message = cJSON_PrintUnformatted(routed_message);
 	if (unlikely(rendered_message == NULL)) {
 		response = create_error_response_from_request(p, request, INTERNAL_ERROR, "reason", "could not render message");
-		goto delete_json;
+		/* the request is already registered with the owner and its timer is running */
+		cancel_routing_request(e->peer, routing_request);
+		cJSON_Delete(routed_message);
+		return response;
 	}
 
 	if (unlikely(e->peer->send_message(e->peer, rendered_message,
